@@ -28,7 +28,7 @@ BOUNDS = {'quick': 'L in 2..4, d in 2,3,4, D<=4 or complete, 1..4 sweeps, Lanczo
           'thorough': 'L in 2..6 (d=4: L<=5), d in 2,3,4, D<=8 or complete, 1..4 sweeps, Lanczos 2,3,10,25 (exact: L<=5)'}
 
 FAMILIES = [('ising', 2), ('heisenberg_xxz', 2), ('heisenberg_s1', 3), ('bose_hubbard', 2), ('bose_hubbard', 3),
-            ('fermi_hubbard', 4), ('rand0', 2), ('rand0', 3), ('randq', 2), ('randq', 3), ('randqz', 2), ('randqz', 3), ('prodh', 2), ('prodh', 3)]
+            ('fermi_hubbard', 4), ('rand0', 2), ('rand0', 3), ('randq', 2), ('randq', 3), ('randqz', 2), ('randqz', 3)]      # (no product operators here: alternating local minimisation has genuine local minima for them)
 NITS = (2, 3, 10, 25)
 BSTYLES = ('one', 'reduced2', 'random', 'complete', 'exact')
 
